@@ -10,29 +10,43 @@
 (*       codec, ver (data page version), enc (plain | dict), index (page index  *)
 (*       present), pstats (page-header statistics present), bloom (none | bits),*)
 (*       big (more rows than dst.maxRows)                                       *)
+(*       flat (every column required and not repeated: no levels)               *)
+(*       kinds multi (MultiRowGroup of files) and disjoint (sorted merge of     *)
+(*       non-overlapping files) are SEGMENTED: writeSegmentsPacked handles each *)
+(*       file-backed segment like a file of its own, packing segments into      *)
+(*       output row groups of at most maxRows rows; the segments are uneven     *)
+(*       and each smaller than the limit even when the whole is big             *)
 (* dst : codec, ver, enc, pstats (DataPageStatistics), bloom                    *)
 EXTENDS Integers, Sequences, FiniteSets, TLC
 
-Kinds  == {"file", "buffer", "merged", "dedup", "converted", "foreign"}
+Kinds  == {"file", "buffer", "merged", "dedup", "converted", "foreign", "multi", "disjoint"}
 Codecs == {"none", "snappy"}
 Blooms == {0, 10, 20}                    \* bits per value, 0 = no filter
 Src == [kind : Kinds, codec : Codecs, ver : {1, 2}, enc : {"plain", "dict"}, index : BOOLEAN,
-        pstats : BOOLEAN, bloom : Blooms, big : BOOLEAN]
+        pstats : BOOLEAN, bloom : Blooms, big : BOOLEAN, flat : BOOLEAN]
 Dst == [codec : Codecs, ver : {1, 2}, enc : {"plain", "dict"}, pstats : BOOLEAN, bloom : Blooms]
 
 \* chunkTransparentMarker: only the library's own chunk-backed row groups opt in
-ChunkTransparent(s) == s.kind \in {"file", "buffer"}
-FileBacked(s) == s.kind = "file"
+Segmented(s) == s.kind \in {"multi", "disjoint"}
+ChunkTransparent(s) == s.kind \in {"file", "buffer"} \/ Segmented(s)
+FileBacked(s) == s.kind = "file" \/ Segmented(s)
+\* what the size test sees: a segment is never bigger than the limit
+Big(s) == s.big /\ ~Segmented(s)
 
 \* columnChunkIsCopyable + copyableColumnChunks (writer_copy.go :106, :202)
 Copyable(s, d) ==
-  /\ ~s.big /\ ChunkTransparent(s) /\ FileBacked(s)
+  /\ ~Big(s) /\ ChunkTransparent(s) /\ FileBacked(s)
   /\ s.codec = d.codec
   /\ (d.bloom # 0 => s.bloom = d.bloom)                \* bloomFilterIsCopyable: same size
   /\ s.index                                           \* column and offset index present
   /\ s.ver = d.ver /\ s.enc = d.enc                    \* encodingStatsMatch
+\* the conjuncts of Copyable that fail; scenario sampling favours vectors where exactly one does (near misses)
+CopyFails(s, d) ==
+  (IF Big(s) THEN {"big"} ELSE {}) \cup (IF ~(ChunkTransparent(s) /\ FileBacked(s)) THEN {"kind"} ELSE {})
+  \cup (IF s.codec # d.codec THEN {"codec"} ELSE {}) \cup (IF d.bloom # 0 /\ s.bloom # d.bloom THEN {"bloom"} ELSE {})
+  \cup (IF ~s.index THEN {"index"} ELSE {}) \cup (IF s.ver # d.ver THEN {"version"} ELSE {}) \cup (IF s.enc # d.enc THEN {"encoding"} ELSE {})
 \* columnOrientedRowGroup (writer_reencode.go :45)
-Reencodable(s, d) == ChunkTransparent(s) /\ ~s.big
+Reencodable(s, d) == ChunkTransparent(s) /\ ~Big(s)
 
 Chosen(s, d) == IF Copyable(s, d) THEN "copy" ELSE IF Reencodable(s, d) THEN "reencode" ELSE "rows"
 
@@ -43,8 +57,8 @@ SameSettings(s, d) == /\ s.codec = d.codec /\ s.ver = d.ver /\ s.enc = d.enc
                       /\ s.bloom = d.bloom               \* presence and size (a filter dst did not ask for is also observable)
                       /\ s.index                          \* the writer always emits a page index
 Allowed(path, s, d) ==
-  CASE path = "copy"     -> ChunkTransparent(s) /\ FileBacked(s) /\ ~s.big /\ SameSettings(s, d)
-    [] path = "reencode" -> ChunkTransparent(s) /\ ~s.big
+  CASE path = "copy"     -> ChunkTransparent(s) /\ FileBacked(s) /\ ~Big(s) /\ SameSettings(s, d)
+    [] path = "reencode" -> ChunkTransparent(s) /\ ~Big(s)
     [] path = "rows"     -> TRUE
 
 VARIABLES s, d
